@@ -45,6 +45,17 @@ pub fn confirm_evaluates(tree: &Node, names: &[String]) -> Option<String> {
         RV::Empty,
     ];
     let log = observe::new_log();
+    // text constants of the tree are bound as variable names too (an operator that takes a name from a value must not
+    // find one)
+    let mut names: Vec<String> = names.to_vec();
+    for node in std::iter::once(tree).chain(tree.iter()) {
+        if let evalexpr::Operator::Const { value: evalexpr::Value::String(s) } = node.operator() {
+            if !names.contains(s) {
+                names.push(s.clone());
+            }
+        }
+    }
+    let names = &names;
     for (vi, v) in vals.iter().enumerate() {
         for fm in [FnModel::Identity, FnModel::Const(v.to_value())] {
             let mut c = Ctx::new();
